@@ -26,6 +26,7 @@ THEOREMS = [
     "Typedpy.C20.counter_missing_key_oneof_through", "Typedpy.C20.counter_missing_key_allof_through",
     "Typedpy.C20.same_value_writes_linearizable", "Typedpy.C20.same_value_writes_example",
     "Typedpy.C20.counter_wrong_field_named_nested_oneOf", "Typedpy.C20.counter_wrong_element_nested_notField",
+    "Typedpy.C20.current_tree_not_racy", "Typedpy.C20.current_tree_positive",
     "Typedpy.C20.safe_table_linearizable",
     "Typedpy.C20.no_racy_site_linearizable",
     "Typedpy.C20.current_tree_linearizable",
